@@ -119,7 +119,7 @@ def ftext(f):
 def generics(spec):
     g = spec["gen"]
     if g == "U":
-        return "<U: ?Sized>", "<[u8]>", ""
+        return "<U: ?::core::marker::Sized>", "<[u8]>", ""
     ps, inst = [], []
     if "a" in g:
         ps.append("'a")
@@ -128,7 +128,7 @@ def generics(spec):
         ps.append("T" + (" = u8" if spec["gdefault"] else ""))
         inst.append("u8")
     if "N" in g:
-        ps.append("const N: usize" + (" = 2" if spec["gdefault"] else ""))
+        ps.append("const N: ::core::primitive::usize" + (" = 2" if spec["gdefault"] else ""))
         inst.append("2")
     wh = ""
     if spec["where"] and "T" in g:
@@ -386,7 +386,7 @@ def run(rep, tier, rng):
             break
     rep.canary = bool(check_case(ok.meta["spec"], ev)[0])
     rep.rule = ("type definitions from a shape grammar (unit/tuple/named structs; enums with 0-5 variants of mixed kinds; 0-4 fields; "
-                "lifetime/type/const parameters with defaults and where-clauses; ?Sized tail observed through Box<Ty<[u8]>>; raw "
+                "lifetime/type/const parameters with defaults and where-clauses; ?::core::marker::Sized tail observed through Box<Ty<[u8]>>; raw "
                 "identifiers for type, field and variant names; repr(C)/non_exhaustive) with random supertrait-closed subsets of the "
                 "eight traits; the same definition is compiled once under derive_ex and once under the std derives (a std-only "
                 "control decides whether the shape is in the property's domain) and Debug ({:?}, {:#?}), clone/clone_from, default, "
